@@ -11,6 +11,8 @@ import NumqiProofs.MatrixSpaceLemmas
 import NumqiProofs.MatrixSpaceMinors
 import NumqiProofs.MatrixSpaceTables5
 import NumqiProofs.MatrixSpaceCombos
+import NumqiProofs.MatrixSpaceLevel2
+import NumqiProofs.MatrixSpaceTripartite
 import NumqiModel.Generated.Thresholds20
 import Mathlib.Data.List.Sort
 import Mathlib.Data.Real.Basic
@@ -377,6 +379,122 @@ theorem hierarchySoundK1_of_tables (h : ∀ q, 0 < q → TablesOK q) : Hierarchy
 
 end hierarchy
 
+/-! ## 7. the hierarchy at level `k = 2`, and the statement for every level -/
+
+section level2
+variable {R : Type} [CommRing R]
+
+/-- the sub-tuple enumeration `combinations(range(q+1), q)` leaves out every position exactly once, `q ≤ 5` (kernel-evaluated) -/
+theorem subsetsOK_le_five (q : ℕ) (h1 : 1 ≤ q) (h5 : q ≤ 5) : SubsetsOK q := MatrixSpace.subsetsOK_le_five q h1 h5
+
+/-- **the model's level-2 vector entry is the full symmetrised form** `Σ_m polMinor(generators without slot m)[rows, cols] ·
+S_m[K]`, for every sorted multi-index of length `q+1`, `q ≤ 5`, all matrix sizes and any number of generators (including the
+`len(np_list) == 1` shortcut of `project_to_symmetric_basis`). -/
+theorem hierVecEntry_level2_eq {q N : ℕ} (h1 : 1 ≤ q) (h5 : q ≤ 5) (mats : ℕ → ℕ → ℕ → R) (dB : ℕ)
+    (INDEX rows cols : List ℕ) (K : ℕ) (hlen : INDEX.length = q + 1) (hs : INDEX.Pairwise (· ≤ ·)) (hlt : ∀ i ∈ INDEX, i < N) :
+    hierVecEntry mats dB N q INDEX rows cols [K]
+      = polW (fun m : Fin (q + 1) => mats (INDEX.getD m.val 0)) (fun i => rows.getD i.val 0) (fun i => cols.getD i.val 0)
+          (K / dB) (K % dB) :=
+  hierVecEntry_level2 (tablesOK_le_five q h1 h5) (subsetsOK_le_five q h1 h5) h1 mats dB INDEX rows cols K hlen hs hlt
+
+/-- **level-2 relation among the vectors of `has_rank_hierarchical_method(·, rank = q, hierarchy_k = 2)`**: if the `q × q`
+minor of `M = Σ_i c_i S_i` on `rows`, `cols` vanishes then, for every symmetric index `K`,
+`Σ_t (∏_m c_{t m}) · v_{α(t)}[rows, cols, K] = 0` (`t` over all `(q+1)`-tuples of generator labels, `α(t)` its sorted multi-index);
+the coefficient of `v_{(i,…,i)}` is `c_i^{q+1}`. Holds for every `q` whose tables pass the checks. -/
+theorem hierarchy_k2_relation_of_tables {q N : ℕ} (hT : TablesOK q) (hS : SubsetsOK q) (hq : 0 < q) (c : Fin N → R)
+    (mats : ℕ → ℕ → ℕ → R) (dB : ℕ) (rows cols : List ℕ) (K : ℕ)
+    (hminor : (subMat (fun r s => ∑ i : Fin N, c i * mats i.val r s)
+        (fun i : Fin q => rows.getD i.val 0) (fun i => cols.getD i.val 0)).det = 0) :
+    ∑ t : Fin (q + 1) → Fin N, (∏ m, c (t m)) * hierVecEntry mats dB N q (sortedIndex t) rows cols [K] = 0 := by
+  rw [← polW_dependence c (fun i => mats i.val) _ _ (K / dB) (K % dB) hminor]
+  refine Finset.sum_congr rfl fun t _ => ?_
+  rw [hierVecEntry_level2 hT hS hq mats dB _ rows cols K (sortedIndex_length t) (sortedIndex_sorted t) (sortedIndex_lt t)]
+  congr 1
+  have : (fun m : Fin (q + 1) => mats ((sortedIndex t).getD m.val 0))
+      = fun m => (fun m' : Fin (q + 1) => mats (t m').val) (Tuple.sort t m) := by
+    funext m; rw [sortedIndex_getD]
+  rw [this]
+  exact polW_perm (fun m' : Fin (q + 1) => mats (t m').val) _ _ _ _ (Tuple.sort t)
+
+/-- **`hierarchy_sound`, level `k = 2`, minors up to `5 × 5`**: a combination of rank `≤ r` (`q = r+1 ≤ 5`) forces the level-2
+relation on every choice of rows, columns and symmetric index. -/
+theorem hierarchy_sound_k2_le_five {K' : Type} [Field K'] {q r N dA dB : ℕ} (hr : r < q) (h5 : q ≤ 5)
+    (c : Fin N → K') (mats : ℕ → ℕ → ℕ → K') (X : ℕ → Fin r → K') (Y : Fin r → ℕ → K')
+    (hrank : ∀ a < dA, ∀ b < dB, ∑ i : Fin N, c i * mats i.val a b = ∑ s : Fin r, X a s * Y s b)
+    (rows cols : List ℕ) (hrows : rows ∈ antisymIndex dA q) (hcols : cols ∈ antisymIndex dB q) (K : ℕ) :
+    ∑ t : Fin (q + 1) → Fin N, (∏ m, c (t m)) * hierVecEntry mats dB N q (sortedIndex t) rows cols [K] = 0 := by
+  have hq : 0 < q := by omega
+  refine hierarchy_k2_relation_of_tables (tablesOK_le_five q hq h5) (subsetsOK_le_five q hq h5) hq c mats dB rows cols K ?_
+  obtain ⟨-, hrlt, hrlen⟩ := (antisymIndex_mem_iff dA q rows).1 hrows
+  obtain ⟨-, hclt, hclen⟩ := (antisymIndex_mem_iff dB q cols).1 hcols
+  have hsub : subMat (fun r' s => ∑ i : Fin N, c i * mats i.val r' s)
+      (fun i : Fin q => rows.getD i.val 0) (fun i => cols.getD i.val 0)
+      = (Matrix.of fun (i : Fin q) (s : Fin r) => X (rows.getD i.val 0) s)
+        * (Matrix.of fun (s : Fin r) (j : Fin q) => Y s (cols.getD j.val 0)) := by
+    ext i j
+    simp only [subMat, Matrix.of_apply, Matrix.mul_apply]
+    refine hrank _ (hrlt _ ?_) _ (hclt _ ?_)
+    · rw [List.getD_eq_getElem?_getD, List.getElem?_eq_getElem (by rw [hrlen]; exact i.isLt)]; simp
+    · rw [List.getD_eq_getElem?_getD, List.getElem?_eq_getElem (by rw [hclen]; exact j.isLt)]; simp
+  rw [hsub]
+  exact det_eq_zero_of_factor hr _ _
+
+/-- the relation for **every level `k ≥ 1` and every minor size** (`n = q + k - 1` slots, symmetric index `K` of length `k-1`):
+the model of the whole vector family is `hierVecEntry` (tied exactly to the implementation for `k ≤ 4`); proved above for
+`k = 1` (`hierarchy_sound_k1_le_five`, `K = []`) and `k = 2` (`hierarchy_sound_k2_le_five`), `q ≤ 5`.
+**Named gap**: `k ≥ 3` (needs the transversal property of the symmetric table for tuples of length `k-1 ≥ 2` and the
+partition of the slots into a `q`-subset and its complement as an equivalence), and `q ≥ 6`. -/
+def HierarchySoundLevelK.Statement : Prop :=
+  ∀ (F : Type) [Field F] (q r k N dA dB : ℕ), r < q → 1 ≤ k →
+    ∀ (c : Fin N → F) (mats : ℕ → ℕ → ℕ → F) (X : ℕ → Fin r → F) (Y : Fin r → ℕ → F),
+      (∀ a < dA, ∀ b < dB, ∑ i : Fin N, c i * mats i.val a b = ∑ s : Fin r, X a s * Y s b) →
+      ∀ rows ∈ antisymIndex dA q, ∀ cols ∈ antisymIndex dB q, ∀ K ∈ symPartKeys N (dA * dB) (k - 1),
+        ∑ t : Fin (q + (k - 1)) → Fin N, (∏ m, c (t m)) * hierVecEntry mats dB N q (sortedIndex t) rows cols K = 0
+
+end level2
+
+/-! ## 8. the tripartite test at level 1 -/
+
+section tripartite
+variable {R : Type} [CommRing R]
+
+/-- the two matricisations are the plain row-major reshapes `(a, b·dC + c)` and `(a·dB + b, c)` of the `(dA,dB,dC)` tensor -/
+theorem matricisations_apply (dB dC : ℕ) (T : ℕ → ℕ → ℕ → R) (a b c : ℕ) (hb : b < dB) (hc : c < dC) :
+    matA_BC dC T a (b * dC + c) = T a b c ∧ matAB_C dB T (a * dB + b) c = T a b c :=
+  ⟨matA_BC_apply dC T a b c hc, matAB_C_apply dB T a b c hb⟩
+
+/-- both cuts vanish on a product tensor -/
+theorem abcEntry_product (dB dC : ℕ) (x y z : ℕ → R) (a b c a' b' c' : ℕ) :
+    abcEntry dB dC (fun a b c => x a * y b * z c) (fun a b c => x a * y b * z c) a b c a' b' c' = 0 :=
+  MatrixSpace.abcEntry_product dB dC x y z a b c a' b' c'
+
+/-- **soundness of `is_ABC_completely_entangled_subspace` at level 1**: if the span of the generators `S_i` contains a product
+vector `Σ_i c_i S_i = x ⊗ y ⊗ z`, the vectors `v_{(i,j)}` (`i ≤ j`) of its linear system satisfy, entry by entry,
+`Σ_{i,j} c_i c_j v_{(min(i,j), max(i,j))} = 0` — a non-trivial relation (coefficient `c_i²` on `v_{(i,i)}`), so the Gram matrix
+`TAlphaBeta` has a kernel vector (`gram_has_kernel`) and, with the `eigvalsh` contract and `hierarchyCert_sound`, the positive
+answer is not issued. All local dimensions. -/
+theorem abc_sound_k1 {N : ℕ} (dB dC : ℕ) (c : Fin N → R) (S : Fin N → ℕ → ℕ → ℕ → R) (x y z : ℕ → R)
+    (hprod : ∀ a b e, ∑ i, c i * S i a b e = x a * y b * z e) (a b e a' b' e' : ℕ) :
+    ∑ i, ∑ j, c i * c j * abcEntry dB dC (S (min i j)) (S (max i j)) a b e a' b' e' = 0 := by
+  have h0 := MatrixSpace.abcEntry_product dB dC x y z a b e a' b' e'
+  have hfun : (fun a b e => ∑ i, c i * S i a b e) = fun a b e => x a * y b * z e := by
+    funext a b e; exact hprod a b e
+  rw [← hfun, abcEntry_bilinear] at h0
+  rw [← h0]
+  refine Finset.sum_congr rfl fun i _ => Finset.sum_congr rfl fun j _ => ?_
+  rcases le_total i j with h | h
+  · rw [min_eq_left h, max_eq_right h]
+  · rw [min_eq_right h, max_eq_left h, abcEntry_symm]
+
+/-- **a linear relation among the vectors gives a kernel vector of the Gram matrix** on which both certificates decide
+(`matAAT = T Tᴴ`, `TAlphaBeta`): `Σ_α d_α G[α,β] = 0` for every `β`. -/
+theorem gram_has_kernel {F : Type} [CommRing F] [StarRing F] {ι κ : Type} [Fintype ι] [Fintype κ]
+    (v : ι → κ → F) (d : ι → F) (hrel : ∀ x, ∑ α, d α * v α x = 0) (β : ι) :
+    ∑ α, d α * ∑ x, v α x * star (v β x) = 0 :=
+  gram_kernel_of_relation v d hrel β
+
+end tripartite
+
 /-! ## non-vacuity -/
 
 /-- the hypotheses of `rank_one_bound` are satisfiable: the span of `E₀₀` (2×2) contains `e₀e₀ᵀ` -/
@@ -390,6 +508,10 @@ example : quadForm 2 2 (mixPT (3 : ℚ) (projector 1 fun _ a b => if a = 0 ∧ b
 /-- the certificate is issued for a bound well below one, and withheld at one -/
 example : rankOneCert (1/2 : ℚ) (1/10000000) = true ∧ rankOneCert (1 : ℚ) (1/10000000) = false := by
   constructor <;> simp [rankOneCert] <;> norm_num
+
+/-- level-2 entry on concrete data: generators `E₀₀+E₁₁`, `E₀₁`; multi-index (0,0,1), rows/cols (0,1), K = 1 -/
+example : hierVecEntry (fun k i j => if k = 0 then (if i = j then (1 : ℤ) else 0) else (if i = 0 ∧ j = 1 then 1 else 0)) 2 2 2
+    [0, 0, 1] [0, 1] [0, 1] [1] = 2 := by decide
 
 example : antisymIndex 4 2 = [[0, 1], [0, 2], [0, 3], [1, 2], [1, 3], [2, 3]] := by decide
 
